@@ -27,6 +27,10 @@ def run(ctx, repo):
     ctx.call(R6B.r_assert_inventory, repo, ('scanner', 'parser', 'composer'))
     ctx.call(R6B.r_one_token_per_fetch, repo)
     ctx.call(R6B.r_no_lookahead_at_doc_end, repo)
+    ctx.call(R6B.r_bound_method_released, repo, ['parser.Parser', 'scanner.Scanner', 'reader.Reader', 'composer.Composer', 'constructor.BaseConstructor', 'resolver.BaseResolver', 'emitter.Emitter', 'serializer.Serializer', 'representer.BaseRepresenter'])
+    ctx.call(R6B.r_read_only_in_update_raw, repo)
+    ctx.call(R6B.r_str_input_verbatim, repo)
+    ctx.call(R6B.r_doc_end_lookahead, repo)
 
 
 if __name__ == '__main__':
